@@ -18,7 +18,7 @@ META = {
         "seeded random histories (1-25 steps: demand write D>=0 / child state change / "
         "children.append / remove / clear / re-read) over UniformComposite and "
         "WeightedComposite(weight in supply, utilisation, allocation) with 0-12 recording "
-        "children; child values from {0, tiny 1e-100.., 1, huge ..1e100, random, equal}, utilisation / allocation also above 1. "
+        "children; child values from {0, tiny 1e-100.., 1, huge ..1e100, random, equal}, utilisation / allocation also above 1; in 30 % of the cases a second composite of the same class exists, constructed empty and filled afterwards. "
         "Non-trivial = at least one demand write with >= 2 children; distinct by content."
     ),
     "assumptions": [
@@ -98,7 +98,7 @@ def gen_case(rnd, spec):
             ops.append(["clear"])
         else:
             ops.append(["read"])
-    return {"kind": kind, "children": children, "ops": ops, "style": style}
+    return {"kind": kind, "children": children, "ops": ops, "style": style, "twin": rnd.random() < 0.3}
 
 
 def close(observed, exact, scale):
@@ -124,6 +124,18 @@ def execute(case, result):
         return [("constructor raised %r" % (err,), None)]
     attr = None if case["kind"] == "uniform" else case["kind"]
     problems = []
+    model = list(pools)  # the children the composite must have, by identity
+    twin = None
+    if case.get("twin"):
+        # a second composite of the same class, constructed empty and filled afterwards: the two have nothing in common
+        try:
+            twin = UniformComposite() if case["kind"] == "uniform" else WeightedComposite(weight=case["kind"])
+            twin.children.append(RecPool(supply=40, utilisation=0.375, allocation=0.625, demand=7))
+            twin.children.extend([RecPool(supply=2, utilisation=1.0, allocation=1.0, demand=1)])
+            twin.demand = 11
+        except Exception as err:
+            return [("a second composite raised %r" % (err,), None)]
+        result.count("cases_with_a_second_composite")
 
     def bad(msg):
         problems.append(("op %d %s: %s" % (idx, op[:2], msg), None))
@@ -227,11 +239,19 @@ def execute(case, result):
                 children[op[1] % len(children)].poke(**{k: v for k, v in op[2].items() if k != "demand"})
         elif kind == "append":
             comp.children.append(RecPool(**op[1]))
+            model.append(comp.children[-1])
         elif kind == "remove":
             if children:
                 comp.children.remove(children[op[1] % len(children)])
+                model.remove(children[op[1] % len(children)])
         elif kind == "clear":
             comp.children.clear()
+            del model[:]
+        now = list(comp.children)
+        if len(now) != len(model) or any(a is not b for a, b in zip(now, model)):
+            bad("the composite's children are %d pools, %d of them not its own (it was given / appended %d)"
+                % (len(now), sum(1 for c in now if not any(c is m for m in model)), len(model)))
+            break
         check_aggregates()
     return problems
 
@@ -255,7 +275,7 @@ def run_shard(spec):
 def finish(total, tier):
     for needed in (
         "writes_unequal_weights", "writes_uniform_fallback", "writes_uniform", "writes_without_children",
-        "fallback_no_children", "fallback_zero_weight_supply", "fallback_zero_weight_nosupply", "aggregates_in_range", "aggregates_of_children_all_above_one",
+        "fallback_no_children", "cases_with_a_second_composite", "fallback_zero_weight_supply", "fallback_zero_weight_nosupply", "aggregates_in_range", "aggregates_of_children_all_above_one",
     ):
         if not total.counters.get(needed) and not total.violations:
             total.inconc("monitor never observed: " + needed)
